@@ -32,7 +32,7 @@ func batches() []batch {
 		for _, f := range []string{"close", "rst", "stall", "truncate"} {
 			out = append(out, batch{fmt.Sprintf("http|%s|%s", k, f)})
 		}
-		out = append(out, batch{fmt.Sprintf("noctx|%s", k)}, batch{fmt.Sprintf("cancel|%s", k)}, batch{fmt.Sprintf("server|%s", k)})
+		out = append(out, batch{fmt.Sprintf("noctx|%s", k)}, batch{fmt.Sprintf("cancel|%s", k)}, batch{fmt.Sprintf("server|%s", k)}, batch{fmt.Sprintf("lifecycle|%s", k)})
 	}
 	for _, g := range []string{"signals", "script", "cancel"} {
 		out = append(out, batch{"stdio|" + g})
@@ -195,6 +195,12 @@ func child() {
 		case "c":
 			schedC(rep, seed)
 		}
+	case "lifecycle":
+		n := 10
+		if thorough {
+			n = 40
+		}
+		lifecycleBatch(rep, kit.Kind(parts[1]), n)
 	case "server":
 		n := 6
 		if thorough {
